@@ -67,6 +67,33 @@ WITNESSES = {
 }
 
 
+# fixed targeted shapes (not findings): run first on every run.  Caller local X, callee local X and a module
+# variable X_1 / X_2 (the names next_available_name tries first) that the caller uses; call at the top level,
+# inside a DO body and inside an IF body (different symbol tables are merged into).
+def _targeted():
+    out = []
+    body = [("assign", "tmp", [], ("bin", "Mul", ("var", "x"), ("lit", 10))),
+            ("assign", "x", [], ("bin", "Add", ("var", "x"), ("var", "tmp")))]
+    use = [("assign", "t", [], ("bin", "Add", ("var", "tmp"), ("bin", "Add", ("var", "tmp_1"), ("var", "tmp_2"))))]
+    call = ("call", "s", [("var", "tmp")])
+    for where in ("top", "do", "if"):
+        mid = [call] if where == "top" else \
+            [("do", "m", ("lit", 1), ("lit", 2), ("lit", 1), [call])] if where == "do" else \
+            [("if", ("bin", "Gt", ("var", "n"), ("lit", 0)), [call], [])]
+        out.append({"outer": [("tmp_1", []), ("tmp_2", [])], "own": [("n", []), ("m", []), ("t", []), ("tmp", [])],
+                    "caller": [("assign", "tmp", [], ("lit", 1)), ("assign", "tmp_1", [], ("lit", 7))] + mid + use,
+                    "formals": [("x", None)], "locals": [("tmp", [], "")], "body": body, "malformed": "",
+                    "targeted": "clash-rename-vs-module-variable/" + where})
+    # the local itself bears the name of a module variable AND its first candidate is one too
+    out.append({"outer": [("q", []), ("q_1", [])], "own": [("n", []), ("t", [])],
+                "caller": [("assign", "q", [], ("lit", 2)), ("assign", "q_1", [], ("lit", 3)), ("call", "s", [("var", "n")]),
+                           ("assign", "t", [], ("bin", "Add", ("var", "q"), ("var", "q_1")))],
+                "formals": [("x", None)], "locals": [("q", [], "")],
+                "body": [("assign", "q", [], ("lit", 5)), ("assign", "x", [], ("var", "q"))], "malformed": "",
+                "targeted": "shadowing-local-vs-module-variables"})
+    return out
+
+
 def make_store(case, r):
     vals = {}
     for n, b in case["outer"] + case["own"]:
@@ -160,6 +187,7 @@ def run(ctx):
         c.setdefault("malformed", "")
         c["witness"] = key
         cases.append(c)
+    cases += _targeted()
     for k in range(ncase):
         mal = rng.choice(G.MALFORMED) if rng.random() < 0.2 else None
         cases.append(gen.case(mal))
@@ -180,7 +208,8 @@ def run(ctx):
             continue
         v = res["verdict"]
         ctx.hist("verdict", v if v != "refused" else "refused/" + L.refusal_class(res["msg"]))
-        ctx.hist("stream", case.get("witness") and "witness" or (case["malformed"] or "valid"))
+        ctx.hist("stream", case.get("witness") and "witness" or case.get("targeted") and "targeted" or (case["malformed"] or "valid"))
+        ctx.hist("module_variables_beyond_g_h", len([1 for n_, _ in case["outer"] if n_ not in ("g", "h")]))
         call = L.find_call(case["caller"])
         for a, (fn, fd) in zip(call[2], case["formals"]):
             ctx.hist("actual_kind", ("array:" if fd else "scalar:") + {"var": "variable", "idx": "element", "sec": "section",
